@@ -231,6 +231,10 @@ def extract(repo):
     if not (cluster and dashdash and stops and om):
         raise ValueError("p21read: the option loop no longer has the getopt shape (clusters / `--` / stop at first non-flag)")
     opt_letters = om.group(1)
+    am = re.search(r"if\s*\(\s*argc\s*>\s*(\d+)\s*\|\|\s*argc\s*<\s*(\d+)\s*\)\s*\{\s*printUse\(\s*argv\[0\]\s*\)\s*;\s*\}\s*char\s+opts\[\]", pr)
+    if not am:
+        raise ValueError("p21read: argument count guard changed")
+    argc_max, argc_min = int(am.group(1)), int(am.group(2))
     m = re.search(r"bool\s+strict\s*=\s*(true|false)\s*;.*?case\s*'s'\s*:\s*strict\s*=\s*(true|false)\s*;", pr, re.S)
     if not m:
         raise ValueError("p21read: -s option not found")
@@ -296,5 +300,8 @@ def extract(repo):
     L.append(f"def p21readStrictWithDashS : Bool := {p21_dash_s}")
     L.append("/-- p21read's option letters (getopt string); every letter of a flag cluster is applied, `--` and the first argument that is not a flag end the options -/")
     L.append(f"def p21readOptLetters : List Char := [" + ", ".join(f"'{c}'" for c in opt_letters) + "]")
+    L.append("/-- p21read prints its usage and exits unless argc is within these bounds (`if( argc > max || argc < min )`, before the option loop) -/")
+    L.append(f"def p21readArgcMin : Nat := {argc_min}")
+    L.append(f"def p21readArgcMax : Nat := {argc_max}")
     L.append("\nend StepModel.Generated\n")
     return {"AttrNullGen.lean": "\n".join(L)}
